@@ -135,6 +135,24 @@ pub fn dump_manifest(path: &Path) -> J {
     })
 }
 
+/// What `tools::open_pack` says about each file of a container set: the packs it holds (by uuid,
+/// sorted) and whether it knows a manifest - the pack list a tool like `concat` works from.
+pub fn dump_file_packs(dir: &Path, files: &[String]) -> J {
+    let mut out = Map::new();
+    for f in files {
+        let node = match jbk::tools::open_pack(dir.join(f)) {
+            Err(e) => jerr(e),
+            Ok(cp) => {
+                let mut uuids: Vec<String> = cp.iter().map(|(u, _)| u.to_string()).collect();
+                uuids.sort();
+                json!({"pack_count": cp.pack_count().into_u16(), "packs": uuids})
+            }
+        };
+        out.insert(f.replace('/', "_"), node);
+    }
+    J::Object(out)
+}
+
 /// Dump everything a reader can learn from the container at `path`.
 pub fn dump_container(path: &Path, opts: &DumpOpts) -> J {
     let mut out = Map::new();
